@@ -153,6 +153,27 @@ fn finite_types(ctx: &mut Ctx) {
             }
         }
     }
+    // extreme deltas: shift must answer None, add must panic
+    let extremes = [isize::MIN, isize::MIN + 1, isize::MAX, isize::MAX - 1, 1 << 60, -(1 << 60), (1 << 61) + 1, -(1 << 61) - 1, 1 << 62, -(1 << 62), 64, -64, 1000, -1000, 8, -8];
+    for i in [0usize, 7, 27, 36, 56, 63] {
+        let c = Coord::from_index(i);
+        for &a in &extremes {
+            for &b in &[0isize, 1, -1, a] {
+                for (df, dr) in [(a, b), (b, a)] {
+                    ctx.eval(1);
+                    let nf = (c.file().index() as i128) + df as i128;
+                    let nr = (c.rank().index() as i128) + dr as i128;
+                    let want = if (0..8).contains(&nf) && (0..8).contains(&nr) { Some(Coord::from_parts(File::from_index(nf as usize), Rank::from_index(nr as usize))) } else { None };
+                    if c.shift(df, dr) != want {
+                        v(ctx, "coord_shift", &format!("coord:{}:shift:{}:{}", i, df, dr), format!("{:?}", c.shift(df, dr)));
+                    }
+                }
+            }
+            let t = i as i128 + a as i128;
+            let inside = (0..64).contains(&t);
+            expect_panic(ctx, "coord_add", &format!("coord:{}:add:{}", i, a), !inside, || c.add(a));
+        }
+    }
     if Coord::iter().map(|c| c.index()).collect::<Vec<_>>() != (0..64).collect::<Vec<_>>() {
         v(ctx, "coord_iter", "coord:iter", "".into());
     }
